@@ -31,7 +31,7 @@ def vecF(x):
 
 
 def gen_case(rng, tier):
-    kind = str(rng.choice(["kraus_cptp", "kraus_cp", "kraus_rect", "nonCP", "unitary", "hp_nonCP"]))
+    kind = str(rng.choice(["kraus_cptp", "kraus_cp", "kraus_rect", "nonCP", "unitary", "hp_nonCP", "ctor_super", "ctor_super"]))
     dims = [[2], [3], [2, 2], [2], [4]][int(rng.integers(0, 5))]
     din = int(np.prod(dims))
     dout_dims = dims
@@ -70,6 +70,21 @@ def build(case):
         U = v @ np.diag(np.exp(1j * w)) @ v.conj().T
         Uq = qutip.Qobj(U, dims=[case["in"], case["in"]])
         return (lambda X: U @ X @ U.conj().T), {"oper": Uq}, True
+    if kind == "ctor_super":
+        # supermatrices as the library's constructors hand them out (with their cached flags), flags inspected
+        A = gi(din, din, rng)
+        A = A + A.conj().T
+        B = gi(din, din, rng)
+        B = B + B.conj().T
+        Aq, Bq = qutip.Qobj(A, dims=[case["in"], case["in"]]), qutip.Qobj(B, dims=[case["in"], case["in"]])
+        Aq.isherm, Bq.isherm
+        which = int(rng.integers(0, 5))
+        Sq = [lambda: qutip.spre(Aq), lambda: qutip.spost(Aq), lambda: qutip.sprepost(Aq, Bq),
+              lambda: qutip.spre(Aq) + qutip.spost(Bq), lambda: 2.0 * qutip.spre(Aq) - qutip.sprepost(Bq, Bq)][which]()
+        if rng.random() < 0.5:
+            Sq.isherm
+        S = Sq.full()
+        return (lambda X: (S @ vecF(X)).reshape(din, din, order="F")), {"super": Sq}, False
     # general linear map given by a random supermatrix
     S = gi(din * din, din * din, rng)
     if kind == "hp_nonCP":
